@@ -117,6 +117,24 @@ package ice
 //@ func (*Agent).resolveSrflxAddresses
 //@   props C09 C19
 //@   opt nosafety
+//@   ghostvar rewriting bool = false
+//@   ghostvar m bool = false
+//@   ghostvar md AddressRewriteMode = 0
+//@   ghostvar n int = 0
+//@   ghostvar e bool = false
+//@   site call shouldRewriteCandidateType#1 ghost rewriting := result
+//@   site call findExternalIPs#1 assert C19 looks-up-the-rules-of-this-candidate-type-for-this-local-address: arg0 == a.addressRewriteMapper
+//@   site call findExternalIPs#1 ghost m := result1
+//@   site call findExternalIPs#1 ghost md := result2
+//@   site call findExternalIPs#1 ghost n := len(result0)
+//@   site call findExternalIPs#1 ghost e := result3 != nil
+//@   ensures C19 without-rules-for-this-type-the-address-is-kept: !rewriting ==> result1 && len(result0) == 1 && result0[0] == localIP
+//@   ensures C19 a-failed-lookup-yields-nothing: rewriting && e ==> !result1
+//@   ensures C19 no-matching-rule-keeps-the-address: rewriting && !e && !m ==> result1 && len(result0) == 1
+//@   ensures C19 replace-with-an-empty-list-drops-the-candidate: rewriting && !e && m && n == 0 && md == AddressRewriteReplace ==> !result1
+//@   ensures C19 append-with-an-empty-list-changes-nothing: rewriting && !e && m && n == 0 && md != AddressRewriteReplace ==> result1 && len(result0) == 1
+//@   ensures C19 replace-substitutes-the-external-addresses: rewriting && !e && m && n > 0 && md == AddressRewriteReplace ==> result1 && len(result0) == n
+//@   ensures C19 append-yields-the-external-addresses-as-additional-reflexive-candidates: rewriting && !e && m && n > 0 && md != AddressRewriteReplace ==> result1 && len(result0) == n
 //@   ensures usable-result-has-at-least-one-address: result1 ==> len(result0) >= 1
 
 //@ func (*Agent).gatherCandidatesSrflxMapped$1
@@ -210,6 +228,24 @@ package ice
 //@ func (*Agent).resolveRelayAddresses
 //@   props C09 C19
 //@   opt nosafety
+//@   ghostvar rewriting bool = false
+//@   ghostvar m bool = false
+//@   ghostvar md AddressRewriteMode = 0
+//@   ghostvar n int = 0
+//@   ghostvar e bool = false
+//@   site call shouldRewriteCandidateType#1 ghost rewriting := result
+//@   site call findExternalIPs#1 assert C19 looks-up-the-rules-of-this-candidate-type-for-this-local-address: arg0 == a.addressRewriteMapper
+//@   site call findExternalIPs#1 ghost m := result1
+//@   site call findExternalIPs#1 ghost md := result2
+//@   site call findExternalIPs#1 ghost n := len(result0)
+//@   site call findExternalIPs#1 ghost e := result3 != nil
+//@   ensures C19 without-rules-for-this-type-the-address-is-kept: !rewriting ==> result1 && len(result0) == 1 && result0[0] == ep.address
+//@   ensures C19 a-failed-lookup-yields-nothing: rewriting && e ==> !result1
+//@   ensures C19 no-matching-rule-keeps-the-address: rewriting && !e && !m ==> result1 && len(result0) == 1
+//@   ensures C19 replace-with-an-empty-list-drops-the-candidate: rewriting && !e && m && n == 0 && md == AddressRewriteReplace ==> !result1
+//@   ensures C19 append-with-an-empty-list-changes-nothing: rewriting && !e && m && n == 0 && md != AddressRewriteReplace ==> result1 && len(result0) == 1
+//@   ensures C19 replace-substitutes-the-external-addresses: rewriting && !e && m && n > 0 && md == AddressRewriteReplace ==> result1 && len(result0) == n
+//@   ensures C19 append-adds-the-external-addresses-to-the-relayed-one: rewriting && !e && m && n > 0 && md != AddressRewriteReplace ==> result1 && len(result0) == n + 1
 //@   ensures usable-result-has-at-least-one-address: result1 ==> len(result0) >= 1
 
 // An address learnt from the network (STUN mapped address, TURN relayed address) is publishable only if the
